@@ -17,9 +17,11 @@
 (*  Deliver  {dir, off, len, eq}       the bridge wrote len bytes to the receiving end of dir;    *)
 (*                                     off = the receiver's count so far, eq = they equal the     *)
 (*                                     sender's stream at [off, off+len)                          *)
-(*  Env      {a, clean}                arm | glitch | replace | closeold (script bookkeeping);     *)
-(*                                     replace carries clean (see TrEnv)                          *)
-(*  CloseEnd {e, kind}                 close: end e closed its connection; error: it failed;      *)
+(*  Env      {a, clean, k}             arm | glitch | replace | closeold (script bookkeeping);     *)
+(*                                     replace carries clean (see TrEnv); glitch carries k: t0 =  *)
+(*                                     a Read returns (0, timeout), tn = (n > 0, timeout)         *)
+(*  CloseEnd {e, kind, w}              close: end e closed its connection; error: it failed;      *)
+(*                                     w = data: the last bytes come with io.EOF / the error;     *)
 (*                                     short: it failed inside a Write after taking part of it;   *)
 (*                                     bridge: a third party called Bridge.Close() (e = "-")      *)
 (*  Drain    {ok, why}                 the driver waited until everything sent so far was         *)
@@ -47,8 +49,9 @@ VARIABLES cfg,        \* the Cfg record of the current trace (or Nil)
           ender,      \* the end of the first CloseEnd
           tail,       \* TRUE while clause (b) is still demanded for `ender`
           stale,      \* the source was replaced and the replaced connection is still open
-          void        \* directions for which nothing is demanded any more (unclean source replacement)
-vars == <<l, viol, cfg, sent, delivered, attached, ended, ender, tail, stale, void>>
+          void,       \* directions for which nothing is demanded any more (unclean source replacement)
+          fault       \* the injected transport behaviour of this trace ("" = none), part of every detail key
+vars == <<l, viol, cfg, sent, delivered, attached, ended, ender, tail, stale, void, fault>>
 
 Dirs == {"s2t", "t2s"}
 Nil == [lim |-> "?", mode |-> "?", via |-> "?"]
@@ -57,26 +60,26 @@ OutOf(e) == IF e = "S" THEN "s2t" ELSE "t2s"
 Other(e) == IF e = "S" THEN "T" ELSE "S"
 
 Init == /\ l = 1 /\ viol = {} /\ cfg = Nil /\ sent = Zero /\ delivered = Zero /\ attached = FALSE
-        /\ ended = "none" /\ ender = "-" /\ tail = FALSE /\ stale = FALSE /\ void = {}
+        /\ ended = "none" /\ ender = "-" /\ tail = FALSE /\ stale = FALSE /\ void = {} /\ fault = ""
 
 Add(c, d) == viol' = viol \cup {V(c, d)}
-Ctx == "lim=" \o cfg.lim
+Ctx == "lim=" \o cfg.lim \o (IF fault = "" THEN "" ELSE ":" \o fault)
 \* violations that can only be told apart from others by the replaced, still open source connection
 \* carry that fact in front (so that one known-finding key can name them)
 St(x) == IF stale THEN "stale-source:" \o x ELSE x
 
 TrCfg == /\ Is("Cfg") /\ l' = l + 1
          /\ cfg' = [lim |-> Ev.lim, mode |-> Ev.mode, via |-> Ev.via]
-         /\ UNCHANGED <<viol, sent, delivered, attached, ended, ender, tail, stale, void>>
+         /\ UNCHANGED <<viol, sent, delivered, attached, ended, ender, tail, stale, void, fault>>
 
 TrSend == /\ Is("Send") /\ l' = l + 1
           /\ sent' = [sent EXCEPT ![Ev.dir] = @ + Ev.n]
           \* the peer of a gracefully closed end speaks again: clause (b) no longer applies
           /\ tail' = (tail /\ Ev.e = ender)
-          /\ UNCHANGED <<viol, cfg, delivered, attached, ended, ender, stale, void>>
+          /\ UNCHANGED <<viol, cfg, delivered, attached, ended, ender, stale, void, fault>>
 
 TrAttach == /\ Is("Attach") /\ l' = l + 1 /\ attached' = TRUE
-            /\ UNCHANGED <<viol, cfg, sent, delivered, ended, ender, tail, stale, void>>
+            /\ UNCHANGED <<viol, cfg, sent, delivered, ended, ender, tail, stale, void, fault>>
 
 TrDeliver ==
   /\ Is("Deliver") /\ l' = l + 1
@@ -87,7 +90,7 @@ TrDeliver ==
      ELSE IF ~Ev.eq THEN Add("Prefix", "corrupt:" \o Ev.dir \o ":" \o Ctx)
      ELSE IF delivered[Ev.dir] + Ev.len > sent[Ev.dir] THEN Add("Prefix", "beyond-sent:" \o Ev.dir \o ":" \o Ctx)
      ELSE viol' = viol
-  /\ UNCHANGED <<cfg, sent, attached, ended, ender, tail, stale, void>>
+  /\ UNCHANGED <<cfg, sent, attached, ended, ender, tail, stale, void, fault>>
 
 \* replace: the source client re-opened the tunnel on a new connection.  The statement does not speak
 \* about reconnects; the judge keeps demanding the pipe clauses for the logical source end only after a
@@ -97,6 +100,8 @@ TrEnv == /\ Is("Env") /\ l' = l + 1
          /\ stale' = (IF Ev.a = "replace" THEN TRUE ELSE IF Ev.a = "closeold" THEN FALSE ELSE stale)
          /\ void' = (IF Ev.a = "replace" /\ ~Ev.clean THEN void \cup {"s2t"} ELSE void)
          /\ tail' = (tail /\ Ev.a # "replace")
+         /\ fault' = (IF Ev.a = "glitch" THEN (IF Ev.k = "tn" THEN "read=data+timeout" ELSE "read=timeout")
+                      ELSE IF Ev.a = "arm" THEN "write=short" ELSE fault)
          /\ UNCHANGED <<viol, cfg, sent, delivered, attached, ended, ender>>
 
 TrCloseEnd ==
@@ -107,6 +112,7 @@ TrCloseEnd ==
           /\ tail' = (Ev.kind = "close" /\ ~stale /\ delivered[OutOf(Other(Ev.e))] = sent[OutOf(Other(Ev.e))])
      ELSE /\ ended' = ended /\ ender' = ender
           /\ tail' = FALSE                       \* a second end closed or failed
+  /\ fault' = (IF Has("w") /\ Ev.w = "data" THEN (IF Ev.kind = "close" THEN "read=data+eof" ELSE "read=data+error") ELSE fault)
   /\ UNCHANGED <<viol, cfg, sent, delivered, attached, stale, void>>
 
 \* clause (a); the judge recounts, it does not rely on the driver's flag
@@ -117,7 +123,7 @@ TrDrain ==
      THEN Add("Complete", Ctx \o ":" \o (IF Ev.ok THEN "miscounted" ELSE Ev.why) \o ":" \o
                           (IF Short = Dirs THEN "both" ELSE IF "s2t" \in Short THEN "s2t" ELSE "t2s"))
      ELSE viol' = viol
-  /\ UNCHANGED <<cfg, sent, delivered, attached, ended, ender, tail, stale, void>>
+  /\ UNCHANGED <<cfg, sent, delivered, attached, ended, ender, tail, stale, void, fault>>
 
 Judged == ended \in {"close", "error", "short"}
 EndCtx == "end=" \o ender \o ":" \o ended \o ":" \o Ctx
@@ -126,22 +132,22 @@ TrClosure ==
   /\ Is("Closure") /\ l' = l + 1
   /\ IF Judged /\ attached /\ Ev.e = Other(ender) /\ ~Ev.seen
      THEN Add("Closure", St("not-observed:" \o EndCtx)) ELSE viol' = viol
-  /\ UNCHANGED <<cfg, sent, delivered, attached, ended, ender, tail, stale, void>>
+  /\ UNCHANGED <<cfg, sent, delivered, attached, ended, ender, tail, stale, void, fault>>
 
 TrForgot ==
   /\ Is("Forgot") /\ l' = l + 1
   /\ IF Judged /\ attached /\ Ev.n # 0
      THEN Add("Forgotten", St("still-registered:" \o EndCtx)) ELSE viol' = viol
-  /\ UNCHANGED <<cfg, sent, delivered, attached, ended, ender, tail, stale, void>>
+  /\ UNCHANGED <<cfg, sent, delivered, attached, ended, ender, tail, stale, void, fault>>
 
 \* the server process died with a panic in tunnox-core code while running this tunnel: every tunnel of
 \* the server is cut and nothing is "forgotten" in an orderly way
 TrCrash == /\ Is("Crash") /\ l' = l + 1
            /\ Add("Crash", "panic:" \o Ev.fn)
-           /\ UNCHANGED <<cfg, sent, delivered, attached, ended, ender, tail, stale, void>>
+           /\ UNCHANGED <<cfg, sent, delivered, attached, ended, ender, tail, stale, void, fault>>
 
 TrCounters == /\ Is("Counters") /\ l' = l + 1
-              /\ UNCHANGED <<viol, cfg, sent, delivered, attached, ended, ender, tail, stale, void>>
+              /\ UNCHANGED <<viol, cfg, sent, delivered, attached, ended, ender, tail, stale, void, fault>>
 
 \* clause (b) is settled at the end of the trace (the driver has waited for the tunnel to go away)
 TailViol == IF tail /\ attached /\ OutOf(ender) \notin void /\ delivered[OutOf(ender)] # sent[OutOf(ender)]
@@ -151,7 +157,7 @@ TrEnd == /\ Is("End")
          /\ PrintT("VERDICT " \o ToJson([tr |-> Ev.tr, viol |-> SetToSeq(viol \cup TailViol)]))
          /\ l' = l + 1
          /\ viol' = {} /\ cfg' = Nil /\ sent' = Zero /\ delivered' = Zero /\ attached' = FALSE
-         /\ ended' = "none" /\ ender' = "-" /\ tail' = FALSE /\ stale' = FALSE /\ void' = {}
+         /\ ended' = "none" /\ ender' = "-" /\ tail' = FALSE /\ stale' = FALSE /\ void' = {} /\ fault' = ""
 
 Next == TrCfg \/ TrSend \/ TrAttach \/ TrDeliver \/ TrEnv \/ TrCloseEnd \/ TrDrain
         \/ TrClosure \/ TrForgot \/ TrCounters \/ TrCrash \/ TrEnd
